@@ -39,17 +39,28 @@ EXPLANATION = (
     "positional or keyword); (12, rules C09.5/C09.8/C09.12/C09.18 adopted) the bytes Retrieve delivers for "
     "(offset, size): the segments fetched are those holding the range, a decoded segment is cut to the tail length "
     "exactly when it is the last segment of the FILE (segnum + 1 == num_segments, not the last segment of the read), "
-    "_set_segment cuts the first/last segment of the READ to the range, download() starts exactly that range.  "
-    "Undecided: leniency of int() on "
-    "odd numerals, empty-file suffix ranges, the byte content delivered by filenode.read() for immutable and literal "
-    "files (offset/size forwarding and slicing there are rules of C04/C01), zfec/AES of the mutable path, multipart "
+    "_set_segment cuts the first/last segment of the READ to the range, download() starts exactly that range; "
+    "(13) error answers (the 416 included): every path of web.common _finish, _renderHTTP_exception (the module-level "
+    "helpers it hands the request to, e.g. _renderHTTP_exception_simple, expanded in place) and of the "
+    "render_exception wrapper is enumerated; a path that only a HEAD (or only a GET) request can take must store the "
+    "same status, the same header values and hand the request to the same callees as some GET (HEAD) path whose other "
+    "tests do not contradict it - a method test after the headers (empty body for HEAD) is allowed; (14) immutable "
+    "files: on every path of DecryptingConsumer.__init__ the create_decryptor(..) kept in self._decryptor starts from "
+    "block counter offset // 16 (the default IV only on a path that established offset // 16 == 0) and offset % 16 "
+    "keystream bytes are consumed from it (none only on a path that established offset % 16 == 0), no other method "
+    "re-binds it, and ImmutableFileNode.read gives its offset both to the DecryptingConsumer and to the ciphertext "
+    "read.  Undecided: leniency of int() on "
+    "odd numerals, empty-file suffix ranges, the rest of the byte content delivered by filenode.read() for immutable "
+    "and literal files (size forwarding, segment slicing and the per-chunk decryption in DecryptingConsumer.write are "
+    "rules of C04/C01), zfec/AES of the mutable path, multipart "
     "responses (first range only, as the code documents), a byte-range-set split at another separator or with a "
     "maxsplit (reported as undecidable, not as a violation: int() refuses the ',' left in an element, so such a "
     "header is ignored as a whole), which files get an ETag and its value (ETag / If-None-Match is "
     "outside RFC 7233 ranges; render_HEAD sets none), content-type / content-encoding / content-disposition / "
     "accept-ranges values (only HEAD = GET is decided for them), the t=json/info/uri representations, what "
-    "humanize_exception / _finish in web/common.py do with WebError.code and with a None result, the error "
-    "path of the read Deferred (_error).")
+    "humanize_exception / _finish in web/common.py do with WebError.code and with a None result (only their "
+    "independence of the request method is decided, rule 13; a method test that cannot be evaluated for b'HEAD' / "
+    "b'GET' is reported as undecidable), headers twisted itself adds, the error path of the read Deferred (_error).")
 TECHNIQUE = "static analysis: symbolic path enumeration over the CFG with polynomial normal forms (announced = served)"
 
 DL = "web.filenode:FileDownloader"
@@ -960,6 +971,21 @@ def run(ctx: Context):
     # announced = served (C40.1) is void if the bytes behind read(offset, size) are not the announced ones.
     ctx.include("C09", ["C09.5", "C09.8", "C09.12", "C09.18"], "C40.12")
 
+    # ---------------------------------------------------------------- C40.13
+    with ctx.rule("C40.13", "R2/E2", "error path (416 and every other error answer of a render method): in web.common "
+                  "_finish, _renderHTTP_exception (with the helpers it hands the request to) and the render_exception "
+                  "wrapper, the status / headers stored on the request do not depend on request.method - every HEAD path "
+                  "stores what a compatible GET path stores", expected=3) as r:
+        _error_path_head_equals_get(r, idx)
+
+    # ---------------------------------------------------------------- C40.14
+    with ctx.rule("C40.14", "E2", "immutable files: on every path of DecryptingConsumer.__init__ the decryptor kept in "
+                  "self._decryptor stands at the read offset - block counter offset // 16 (the default IV only where "
+                  "offset // 16 == 0 was established) and offset % 16 keystream bytes consumed (none only where offset % "
+                  "16 == 0 was established); ImmutableFileNode.read gives that same offset to the ciphertext read",
+                  expected=3) as r:
+        _decryptor_positioned(r, idx)
+
 
 # ------------------------------------------------------------------ C40.10
 _STRIPS = ("strip", "lstrip", "rstrip")
@@ -1359,3 +1385,452 @@ def _nearest(s, others):
     if best is None:
         return "no counterpart path"
     return ", ".join(sorted("%s" % (k,) for (k, _v) in best)) or "?"
+
+
+# ------------------------------------------------------------------ C40.13
+_ERR_TARGETS = ("web.common:_finish", "web.common:_renderHTTP_exception", "web.common:render_exception.g")
+_REQ_ATTRS = ("setResponseCode", "setHeader", "getHeader", "method", "finish", "write", "notifyFinish",
+              "responseHeaders")
+_FACT_NEG = {"==": "!=", "!=": "==", "is": "is not", "is not": "is", "in": "not in", "not in": "in",
+             "truth": "false", "false": "truth"}
+
+
+def _neg_fact(f):
+    (op, l, rr) = f
+    if op in _FACT_NEG:
+        return (_FACT_NEG[op], l, rr)
+    if op == "<":
+        return ("<=", rr, l)
+    if op == "<=":
+        return ("<", rr, l)
+    return None
+
+
+def _request_param(fn):
+    """The parameter of fn that is the HTTP request: the one whose request attributes are used."""
+    ps = [p for p in fn.params if p not in ("self", "cls")]
+    used = set()
+    for x in func_own_nodes(fn):
+        if isinstance(x, ast.Attribute) and isinstance(x.value, ast.Name) and x.value.id in ps and x.attr in _REQ_ATTRS:
+            used.add(x.value.id)
+    if len(used) != 1:
+        raise AnchorVanished("%s: cannot tell which parameter is the request (%s)" % (fn.qual, sorted(used)))
+    return used.pop()
+
+
+def _const_value(e):
+    """(True, value) of a display of constants, else (False, None)."""
+    if isinstance(e, ast.Constant):
+        return True, e.value
+    if isinstance(e, (ast.Tuple, ast.List, ast.Set)):
+        vs = [_const_value(x) for x in e.elts]
+        if all(ok for ok, _v in vs):
+            return True, tuple(v for _ok, v in vs)
+    return False, None
+
+
+def _method_test_value(t, reqm, value):
+    """Truth value of the atomic test `t` when <request>.method == value; None when it cannot be evaluated."""
+    class S(ast.NodeTransformer):
+        def visit_Attribute(self, node):
+            if reqm is not None and attr_path(node) == reqm:
+                return ast.Constant(value=value)
+            return self.generic_visit(node)
+    e = S().visit(copy.deepcopy(t))
+    neg = False
+    while isinstance(e, ast.UnaryOp) and isinstance(e.op, ast.Not):
+        e, neg = e.operand, not neg
+    res = None
+    ok, v = _const_value(e)
+    if ok:
+        res = bool(v)
+    elif isinstance(e, ast.Compare) and len(e.ops) == 1:
+        (ok1, a), (ok2, b) = _const_value(e.left), _const_value(e.comparators[0])
+        if ok1 and ok2:
+            op = e.ops[0]
+            try:
+                if isinstance(op, ast.Eq):
+                    res = a == b
+                elif isinstance(op, ast.NotEq):
+                    res = a != b
+                elif isinstance(op, ast.In):
+                    res = a in b
+                elif isinstance(op, ast.NotIn):
+                    res = a not in b
+                elif isinstance(op, (ast.Is, ast.IsNot)) and (a is None or b is None):
+                    res = (a is b) if isinstance(op, ast.Is) else (a is not b)
+            except TypeError:
+                res = None
+    if res is None:
+        return None
+    return (not res) if neg else res
+
+
+class _Variant:
+    """One inter-procedurally expanded path: the tests taken and what was stored on the request."""
+    def __init__(self):
+        self.tests = []      # [(test AST in the target's namespace, polarity, cfg node)]
+        self.events = []     # [("status", nf) | ("header", name, nf) | ("call", callee)]
+
+    def extended(self, other, bind):
+        v = _Variant()
+        v.tests = self.tests + [(_sub(bind, t), pol, n) for (t, pol, n) in other.tests]
+        v.events = self.events + [ev[:1] + tuple(_sub(bind, x) if isinstance(x, ast.AST) else x for x in ev[1:])
+                                  for ev in other.events]
+        return v
+
+    def copy(self):
+        v = _Variant()
+        v.tests, v.events = list(self.tests), list(self.events)
+        return v
+
+
+def _request_variants(idx, fn, req, opaque, stack=(), max_variants=4000):
+    """Completing paths of fn, each with the tests taken and the status / header stores and hand-overs of the request
+    `req` (a parameter name of fn).  A module-level helper of the same module that is handed the request is expanded
+    in place (its parameters bound to the arguments); functions in `opaque` and everything else are recorded as a
+    hand-over by name."""
+    out = []
+    for p in sym_paths(fn):
+        if p.end != "exit":
+            continue
+        vs = [_Variant()]
+        for (n, lab, env) in p.steps:
+            if lab == "exc":
+                continue
+            if n.kind == "test" and isinstance(lab, tuple):
+                t = _sub(env, n.ast)
+                known = _method_test_value(t, None, None)
+                if known is not None and known != (lab[0] == "T"):
+                    vs = []         # a test on constants taken the other way: not a path
+                    break
+                for v in vs:
+                    v.tests.append((t, lab[0] == "T", n))
+            if n.kind == "stmt" and isinstance(n.ast, (ast.FunctionDef, ast.AsyncFunctionDef, ast.ClassDef)):
+                continue
+            for c in node_calls(n):
+                t = call_tail(c)
+                recv = nz(_sub(env, c.func.value)) if isinstance(c.func, ast.Attribute) else None
+                if recv == req and t == "setHeader" and len(c.args) >= 2:
+                    nm = c.args[0]
+                    if isinstance(nm, ast.Constant) and isinstance(nm.value, (str, bytes)):
+                        s = nm.value.decode("latin-1") if isinstance(nm.value, bytes) else nm.value
+                        key = s.lower()
+                    else:
+                        key = nz(_sub(env, nm))
+                    for v in vs:
+                        v.events.append(("header", key, _sub(env, c.args[1])))
+                    continue
+                if recv == req and t == "setResponseCode" and c.args:
+                    for v in vs:
+                        v.events.append(("status", _sub(env, c.args[0])))
+                    continue
+                handed = [a for a in list(c.args) + [k.value for k in c.keywords]
+                          if not isinstance(a, ast.Starred) and nz(_sub(env, a)) == req]
+                if not handed:
+                    continue
+                callee = fn.module.funcs.get(c.func.id) if isinstance(c.func, ast.Name) else None
+                if callee is None or callee.qual in opaque or callee.qual in stack or len(stack) >= 3:
+                    for v in vs:
+                        v.events.append(("call", call_name(c) or t))
+                    continue
+                b = _bind_args(c, callee.params)
+                if b is None:
+                    raise AnalysisError("C40.13: cannot bind the arguments of %s" % src(fn, c))
+                creq = [k for k, a in b.items() if nz(_sub(env, a)) == req]
+                if len(creq) != 1:
+                    raise AnalysisError("C40.13: %s receives the request more than once" % callee.qual)
+                bind = {k: _sub(env, a) for k, a in b.items()}
+                subs = _request_variants(idx, callee, creq[0], opaque, stack + (fn.qual,), max_variants)
+                vs = [v.extended(cv, bind) for v in vs for cv in subs]
+                if len(vs) > max_variants:
+                    raise AnalysisError("C40.13: too many paths through %s" % fn.qual)
+        out.extend(vs)
+        if len(out) > max_variants:
+            raise AnalysisError("C40.13: too many paths through %s" % fn.qual)
+    return out
+
+
+def _error_path_head_equals_get(r, idx):
+    targets = [idx.func(q) for q in _ERR_TARGETS]
+    opaque = {f.qual for f in targets}
+    for fn in targets:
+        req = _request_param(fn)
+        reqm = req + ".method"
+        vs = _request_variants(idx, fn, req, opaque)
+        if not vs:
+            raise AnchorVanished("%s has no completing path" % fn.qual)
+        r.site(fn, fn.node, "status/headers independent of %s" % reqm)
+        r.count(len(vs))
+        rows = []
+        for v in vs:
+            head = get = True
+            facts = set()
+            mtest = None
+            if any(_method_test_value(t, None, None) not in (None, pol) for (t, pol, _n) in v.tests):
+                continue            # a test on constants taken the other way: not a path
+            for (t, pol, n) in v.tests:
+                if any(attr_path(x) == reqm for x in ast.walk(t) if isinstance(x, ast.Attribute)):
+                    hv, gv = _method_test_value(t, reqm, b"HEAD"), _method_test_value(t, reqm, b"GET")
+                    if hv is None or gv is None:
+                        raise AnalysisError("C40.13: cannot evaluate the test %s of %s for HEAD / GET" % (
+                            ast.unparse(t), fn.qual))
+                    if hv != gv:
+                        mtest = mtest or n
+                    head = head and (hv == pol)
+                    get = get and (gv == pol)
+                else:
+                    facts.add(_NORM.cmp(t, pol))
+            status = tuple(nz(ev[1]) for ev in v.events if ev[0] == "status")
+            hdrs = {}
+            for ev in v.events:
+                if ev[0] == "header":
+                    hdrs[ev[1]] = nz(ev[2])
+            calls = tuple(sorted(ev[1] for ev in v.events if ev[0] == "call"))
+            rows.append((head, get, facts, (status, tuple(sorted(hdrs.items())), calls), mtest))
+
+        def compatible(fa, fb):
+            return not any(_neg_fact(f) in fb for f in fa)
+
+        def describe(sig):
+            (status, hdrs, calls) = sig
+            return "status %s, headers {%s}%s" % (
+                "/".join(status) or "untouched", ", ".join(k for k, _v in hdrs),
+                (", request handed to " + ", ".join(calls)) if calls else "")
+        worst = {}
+
+        def dist(a, b):
+            return len(set(a[1]) ^ set(b[1])) + (a[0] != b[0]) + len(set(a[2]) ^ set(b[2]))
+        for (mine, other, what, whom) in ((0, 1, "HEAD", "GET"), (1, 0, "GET", "HEAD")):
+            for row in rows:
+                if not row[mine] or row[other]:
+                    continue        # only paths that one method takes and the other cannot
+                sig = row[3]
+                peers = [o for o in rows if o[other] and compatible(row[2], o[2])]
+                if any(o[3] == sig for o in peers):
+                    continue
+                n = row[4]
+                near = min(peers, key=lambda o: (-len(o[2] & row[2]), dist(o[3], sig)))[3] if peers else None
+                score = dist(near, sig) if near is not None else 99
+                key = (n.id if n is not None else -1, what)
+                if key not in worst or worst[key][0] < score:
+                    worst[key] = (score, n, what, whom, sig, near)
+        for (_score, n, what, whom, sig, near) in worst.values():
+            r.violation(fn, fn.loc(n.ast if n is not None else None),
+                        "the error answer depends on the request method: a %s request stores %s where %s" % (
+                            what, describe(sig), ("a %s request stores %s" % (whom, describe(near))) if near
+                            else ("no %s request completes" % whom)) +
+                        " (HEAD must carry the status and headers of GET, also for 416)")
+
+
+# ------------------------------------------------------------------ C40.14
+class _DivmodFold(ast.NodeTransformer):
+    """divmod(a, b)[0] -> a // b, divmod(a, b)[1] -> a % b."""
+    def visit_Subscript(self, node):
+        self.generic_visit(node)
+        v, s = node.value, node.slice
+        if isinstance(v, ast.Call) and isinstance(v.func, ast.Name) and v.func.id == "divmod" and len(v.args) == 2 \
+                and not v.keywords and isinstance(s, ast.Constant) and s.value in (0, 1):
+            return ast.BinOp(left=v.args[0], op=ast.FloorDiv() if s.value == 0 else ast.Mod(), right=v.args[1])
+        return node
+
+
+def _fold(e):
+    return _DivmodFold().visit(copy.deepcopy(e))
+
+
+def _decryptor_positioned(r, idx):
+    DC = "immutable.filenode:DecryptingConsumer"
+    folder = get_folder(idx)
+    block = len(folder.module_const("crypto.aes", "DEFAULT_IV"))
+    if block <= 0 or block & (block - 1):
+        raise AnalysisError("C40.14: cipher block size %r" % block)
+    shift = block.bit_length() - 1
+    init = idx.func(DC + ".__init__")
+    ips = first_positional_params(init)
+    # ---- ImmutableFileNode.read: one offset for the decryptor and for the ciphertext
+    rd = idx.func("immutable.filenode:ImmutableFileNode.read")
+    rp = first_positional_params(rd)
+    if len(rp) < 3:
+        raise AnchorVanished("ImmutableFileNode.read no longer takes (consumer, offset, size)")
+    roff = rp[1]
+    rn = FlowNorm(rd)
+    ctor = [(n, c) for n in rd.cfg().nodes for c in node_calls(n) if call_tail(c) == "DecryptingConsumer"]
+    if len(ctor) != 1:
+        raise AnchorVanished("ImmutableFileNode.read: expected one DecryptingConsumer(..), found %d" % len(ctor))
+    (cn, cc) = ctor[0]
+    b = _bind_args(cc, ips)
+    if b is None:
+        raise AnalysisError("C40.14: cannot bind the arguments of %s" % src(rd, cc))
+    r.site(rd, cc, "decryptor positioned at the read offset")
+    carriers = [p for p, a in b.items() if rn.norm(cn, a) == roff]
+    off = None
+    if len(carriers) != 1 or carriers[0] not in ips:
+        r.violation(rd, rd.loc(cc), "ImmutableFileNode.read does not hand its offset (%s) to the DecryptingConsumer "
+                    "(arguments: %s): a ranged read is decrypted with the keystream of another position" % (
+                        roff, ", ".join("%s=%s" % (p, rn.norm(cn, a)) for p, a in b.items())))
+    else:
+        off = carriers[0]
+    creads = [(n, c) for n in rd.cfg().nodes for c in node_calls(n) if call_tail(c) == "read"
+              and isinstance(c.func, ast.Attribute) and attr_path(c.func.value) is not None
+              and attr_path(c.func.value).startswith("self.")]
+    if len(creads) != 1:
+        raise AnchorVanished("ImmutableFileNode.read: expected one ciphertext read, found %d" % len(creads))
+    (qn, qc) = creads[0]
+    r.site(rd, qc, "ciphertext read from the same offset")
+    qoff = arg(qc, 1, "offset")
+    got = rn.norm(qn, qoff) if qoff is not None else "<default>"
+    if got != roff:
+        r.violation(rd, rd.loc(qc), "the ciphertext is read from %s but the decryptor is positioned at %s" % (got, roff))
+    if off is None:
+        return
+    # ---- DecryptingConsumer.__init__, every path
+    O = ast.Name(id=off, ctx=ast.Load())
+    B_ok = {nz(_expr_of("O // %d" % block, O=O)), nz(_expr_of("O >> %d" % shift, O=O))}
+    S_ok = {nz(_expr_of("O %% %d" % block, O=O)), nz(_expr_of("O & %d" % (block - 1), O=O)),
+            nz(_expr_of("O - %d * (O // %d)" % (block, block), O=O)),
+            nz(_expr_of("O - (O // %d) * %d" % (block, block), O=O))}
+    zero_block = {_cmp_of(t, O=O) for t in (
+        "not (O // %d)" % block, "(O // %d) == 0" % block, "(O // %d) < 1" % block, "(O // %d) <= 0" % block,
+        "not (O >> %d)" % shift, "(O >> %d) == 0" % shift,
+        "not O", "O == 0", "O < %d" % block, "O <= %d" % (block - 1), "O < 1", "O <= 0")}
+    zero_resid = {_cmp_of(t, O=O) for t in (
+        "not (O %% %d)" % block, "(O %% %d) == 0" % block, "(O %% %d) < 1" % block, "(O %% %d) <= 0" % block,
+        "not (O & %d)" % (block - 1), "(O & %d) == 0" % (block - 1),
+        "not O", "O == 0", "O < 1", "O <= 0")}
+    ZERO = ast.Constant(value=0)
+
+    def counter_of(V, node):
+        """AST of the block counter the decryptor `V` (a create_decryptor call) starts from."""
+        iv = arg(V, 1, "iv")
+        if iv is None or (isinstance(iv, ast.Constant) and iv.value is None):
+            return ZERO
+        if isinstance(iv, ast.Call) and call_tail(iv) == "unhexlify" and len(iv.args) == 1:
+            h = iv.args[0]
+            while isinstance(h, ast.Call) and isinstance(h.func, ast.Attribute) and h.func.attr == "encode":
+                h = h.func.value
+            p = fmt_parts(h)
+            if p is not None and len(p[1]) == 1 and all(x == "" for x in p[0]) and isinstance(h, ast.BinOp):
+                m = re.match(r"^%0(\d+)x$", h.left.value if isinstance(h.left.value, str) else h.left.value.decode("latin-1"))
+                if m is None or int(m.group(1)) != 2 * block:
+                    r.violation(init, init.loc(node.ast), "the IV is formatted with %r, not as the %d hex digits of one "
+                                "cipher block" % (h.left.value, 2 * block))
+                    return None
+                return p[1][0]
+        if isinstance(iv, ast.Call) and call_tail(iv) == "to_bytes" and isinstance(iv.func, ast.Attribute):
+            ln, bo = arg(iv, 0, "length"), arg(iv, 1, "byteorder")
+            if isinstance(ln, ast.Constant) and ln.value == block and isinstance(bo, ast.Constant) and bo.value == "big":
+                return iv.func.value
+            r.violation(init, init.loc(node.ast), "the IV %s is not the big-endian counter in one cipher block" %
+                        ast.unparse(iv))
+            return None
+        raise AnalysisError("C40.14: cannot read the block counter out of the IV %s" % ast.unparse(iv))
+
+    def consumed_of(data):
+        """AST of the number of keystream bytes `data` consumes, or None."""
+        if isinstance(data, ast.BinOp) and isinstance(data.op, ast.Mult):
+            for a_, b_ in ((data.left, data.right), (data.right, data.left)):
+                if isinstance(a_, ast.Constant) and isinstance(a_.value, bytes) and len(a_.value) == 1:
+                    return b_
+        if isinstance(data, ast.Call) and isinstance(data.func, ast.Name) and data.func.id in ("bytes", "bytearray") \
+                and len(data.args) == 1 and not data.keywords and not isinstance(data.args[0], ast.Constant):
+            return data.args[0]
+        if isinstance(data, ast.Constant) and isinstance(data.value, bytes):
+            return ast.Constant(value=len(data.value))
+        return None
+
+    stores_seen = {}
+    done = set()
+    n_paths = 0
+    for p in sym_paths(init):
+        if p.end != "exit":
+            continue
+        n_paths += 1
+        r.count(len(p.steps))
+        store = None          # (node, value AST)
+        advances = []         # [(decryptor nf, data AST, node, position)]
+        spos = -1
+        for pos, (n, lab, env) in enumerate(p.steps):
+            if lab == "exc":
+                continue
+            if n.kind == "stmt" and isinstance(n.ast, (ast.FunctionDef, ast.AsyncFunctionDef, ast.ClassDef)):
+                continue
+            for c in node_calls(n):
+                if call_tail(c) == "decrypt_data":
+                    d0, d1 = arg(c, 0, "decryptor"), arg(c, 1, "plaintext")
+                    if d0 is None or d1 is None:
+                        raise AnalysisError("C40.14: cannot bind the arguments of %s" % src(init, c))
+                    advances.append((nz(_fold(_sub(env, d0))), _fold(_sub(env, d1)), n, pos))
+            if "self._decryptor" in node_stores(n):
+                v = assign_value(n, "self._decryptor")
+                if v is None:
+                    raise AnalysisError("C40.14: cannot read the value stored by %s" % src(init, n.ast))
+                store, spos = (n, _fold(_sub(env, v))), pos
+        w = ["L%d%s %r" % (n.lineno, (" [%s]" % lab[0]) if isinstance(lab, tuple) else "", n)
+             for (n, lab, _e) in p.steps if n.kind not in ("entry",)]
+        if store is None:
+            key = ("nostore",)
+            if key not in done:
+                done.add(key)
+                r.violation(init, init.loc(), "DecryptingConsumer.__init__ can complete without a decryptor in "
+                            "self._decryptor", w)
+            continue
+        (sn, V) = store
+        stores_seen[sn.id] = sn
+        if not (isinstance(V, ast.Call) and call_tail(V) == "create_decryptor"):
+            raise AnalysisError("C40.14: self._decryptor is %s, not a create_decryptor(..) call" % nz(V))
+        Vs = nz(V)
+        Bx = counter_of(V, sn)
+        if Bx is None:
+            continue
+        facts = {_NORM.cmp(_fold(_sub(env, n.ast)), lab[0] == "T") for (n, lab, env) in p.steps
+                 if n.kind == "test" and isinstance(lab, tuple)}
+        Bs = nz(Bx)
+        if Bs not in B_ok:
+            key = (sn.id, "B", Bs)
+            if Bs != "0":
+                if key not in done:
+                    done.add(key)
+                    r.violation(init, init.loc(sn.ast), "the block counter the decryptor starts from is %s, not %s // %d"
+                                % (Bs, off, block), w)
+            elif not (facts & zero_block):
+                if key not in done:
+                    done.add(key)
+                    r.violation(init, init.loc(sn.ast), "the decryptor starts from block counter 0 (default IV) on a path "
+                                "that did not establish %s // %d == 0: a read from a later block is decrypted with the "
+                                "keystream of the start of the file" % (off, block), w)
+        total = None
+        for (dn, data, an, apos) in advances:
+            if not ((apos > spos and dn == "self._decryptor") or (apos <= spos and dn == Vs)):
+                continue
+            cnt = consumed_of(data)
+            if cnt is None:
+                raise AnalysisError("C40.14: cannot tell how many keystream bytes %s consumes" % ast.unparse(data))
+            total = cnt if total is None else ast.BinOp(left=total, op=ast.Add(), right=cnt)
+        Ss = nz(total) if total is not None else "0"
+        if Ss not in S_ok:
+            key = (sn.id, "S", Ss)
+            if Ss != "0":
+                if key not in done:
+                    done.add(key)
+                    r.violation(init, init.loc(sn.ast), "the decryptor is advanced by %s keystream bytes, not by %s %% %d"
+                                % (Ss, off, block), w)
+            elif not (facts & zero_resid):
+                if key not in done:
+                    done.add(key)
+                    r.violation(init, init.loc(sn.ast), "the decryptor is not advanced by the %s %% %d leading keystream "
+                                "bytes on a path that did not establish %s %% %d == 0: a read starting inside a cipher "
+                                "block is decrypted as if it started at the block boundary" % (off, block, off, block), w)
+    if not n_paths:
+        raise AnchorVanished("DecryptingConsumer.__init__ has no completing path")
+    for sn in stores_seen.values():
+        r.site(init, sn.ast, "decryptor stored")
+    ci = idx.cls(DC)
+    for m in ci.methods.values():
+        if m.name == "__init__":
+            continue
+        for f in [m] + list(m.nested.values()):
+            for n in f.cfg().nodes:
+                if "self._decryptor" in node_stores(n):
+                    r.violation(f, f.loc(n.ast), "%s re-binds the decryptor: the keystream position of the read is lost"
+                                % short(f))
